@@ -11,7 +11,7 @@ def fn_doc(rng):
     """documents dense in footnote references and blocks: repeated, missing, surplus, out-of-order markers,
     in paragraphs, headings, list intros, table cells, attachments"""
     w = gen.Words(rng)
-    marks = rng.choice([['1'], ['1', '2'], ['*', '1', 'a'], ['1', '1', '2']])
+    marks = rng.choice([['1'], ['1', '2'], ['*', '1', 'a'], ['1', '1', '2'], ['1a', '1 a', '1'], ['ab', 'a b']])   # the last two: markers equal up to an inner blank
 
     def ref():
         return '{{FOOTNOTE %s}}' % rng.choice(marks)
